@@ -292,3 +292,123 @@ func lastStoreBefore(load *ssa.UnOp, cell *ssa.Alloc) *ssa.Store {
 	}
 	return nil
 }
+
+// InfeasibleUnderV is InfeasibleUnder that also evaluates branch conditions
+// which are boolean *values* computed from the subject (`removeOld := t == Remove
+// || t == Mod; if removeOld {…}`): a boolean phi is evaluated from the incoming
+// edges that are still feasible and reachable under subj == k; if every such
+// incoming value evaluates to the same constant the If on it is decided.
+// Iterated to a fixpoint (each decided branch prunes further incomings).
+func InfeasibleUnderV(fn *ssa.Function, subj func(ssa.Value) bool, k constant.Value) EdgeSet {
+	out := InfeasibleUnder(fn, subj, k)
+	if len(fn.Blocks) == 0 {
+		return out
+	}
+	reachable := func() map[*ssa.BasicBlock]bool {
+		seen := map[*ssa.BasicBlock]bool{fn.Blocks[0]: true}
+		work := []*ssa.BasicBlock{fn.Blocks[0]}
+		for len(work) > 0 {
+			b := work[len(work)-1]
+			work = work[:len(work)-1]
+			for si, s := range b.Succs {
+				if out[Edge{b, si}] || seen[s] {
+					continue
+				}
+				seen[s] = true
+				work = append(work, s)
+			}
+		}
+		return seen
+	}
+	var eval func(v ssa.Value, reach map[*ssa.BasicBlock]bool, d int) (val, known bool)
+	eval = func(v ssa.Value, reach map[*ssa.BasicBlock]bool, d int) (bool, bool) {
+		if d > 8 {
+			return false, false
+		}
+		switch x := v.(type) {
+		case *ssa.Const:
+			if x.Value != nil && x.Value.Kind() == constant.Bool {
+				return constant.BoolVal(x.Value), true
+			}
+		case *ssa.UnOp:
+			if x.Op == token.NOT {
+				b, ok := eval(x.X, reach, d+1)
+				return !b, ok
+			}
+		case *ssa.BinOp:
+			var kc *ssa.Const
+			op := x.Op
+			switch {
+			case subj(x.X):
+				kc, _ = x.Y.(*ssa.Const)
+			case subj(x.Y):
+				kc, _ = x.X.(*ssa.Const)
+				op = swapRel(op)
+			}
+			if kc != nil && kc.Value != nil && isRel(op) && kc.Value.Kind() == k.Kind() {
+				return constant.Compare(k, op, kc.Value), true
+			}
+		case *ssa.Phi:
+			first, have := false, false
+			for i, e := range x.Edges {
+				pred := x.Block().Preds[i]
+				if !reach[pred] {
+					continue
+				}
+				feasible := false
+				for si, sb := range pred.Succs {
+					if sb == x.Block() && !out[Edge{pred, si}] {
+						feasible = true
+					}
+				}
+				if !feasible {
+					continue
+				}
+				b, ok := eval(e, reach, d+1)
+				if !ok {
+					return false, false
+				}
+				if have && b != first {
+					return false, false
+				}
+				first, have = b, true
+			}
+			return first, have
+		}
+		return false, false
+	}
+	for iter := 0; iter < 6; iter++ {
+		reach := reachable()
+		grew := false
+		for _, b := range fn.Blocks {
+			if !reach[b] || len(b.Instrs) == 0 {
+				continue
+			}
+			ifi, ok := b.Instrs[len(b.Instrs)-1].(*ssa.If)
+			if !ok || out[Edge{b, 0}] || out[Edge{b, 1}] {
+				continue
+			}
+			atom, neg := atomOf(ifi.Cond)
+			if _, isPhi := atom.(*ssa.Phi); !isPhi {
+				continue
+			}
+			val, known := eval(atom, reach, 0)
+			if !known {
+				continue
+			}
+			if neg {
+				val = !val
+			}
+			if val {
+				out[Edge{b, 1}] = true
+			} else {
+				out[Edge{b, 0}] = true
+			}
+			grew = true
+		}
+		if !grew {
+			break
+		}
+	}
+	return out
+}
